@@ -126,6 +126,9 @@ var opTemplates = []opT{
 	{Name: "addacc()", Body: `(s.addacc)(v)`, AccAdd: true, Group: "closure"},
 	{Name: "getacc()", Body: `log.Add('v', (s.getacc)().Copy())`, Group: "closure"},
 	{Name: "setob()", Body: `(s.setv)(Object(v))`, Group: "closure"},
+	// a block parameter captured by a nested block lives in the shared slots of the enclosing function
+	{Name: "echo()", Body: `log.Add('v', (s.echo)(v))`, Group: "closure"},
+	{Name: "echo()*20", Body: `for (i = 0; i < 20; ++i) x = (s.echo)(v); log.Add('v', x)`, Group: "closure"},
 	// class and instance
 	{Name: "cls.X", Body: `log.Add('v', s.cls.X)`, Group: "class"},
 	{Name: "cls.L[1]", Body: `log.Add('v', s.cls.L[1])`, Group: "class"},
@@ -221,10 +224,11 @@ func c43Setup(c c43Case) string {
  getv = { v }
  addacc = {|x| acc.Add(x) }
  getacc = { acc }
+ echo = {|x| inner = { x }; inner() }
  cls = class { X: 'i_cx'; L: #('i_l0', 'i_l1'); R: #{a: 'i_cr'}; F() { return .X }; G() { return .M } }
  inst = new cls
  inst.M = 'i_m'
- return Object(:ob, :rec, :inc, :getn, :setv, :getv, :addacc, :getacc, :cls, :inst)
+ return Object(:ob, :rec, :inc, :getn, :setv, :getv, :addacc, :getacc, :echo, :cls, :inst)
 }`)
 	return sb.String()
 }
@@ -622,6 +626,10 @@ func TestC43(t *testing.T) {
 	}
 
 	journal := rt.ReplayOut("c43_running.json")
+	if p := replayFile("c43_enter"); p != "" {
+		replayEnter(t, rec, p)
+		return
+	}
 	if p := replayFile("c43_"); p != "" {
 		var c c43Case
 		if err := readJSON(p, &c); err != nil {
@@ -699,4 +707,6 @@ func TestC43(t *testing.T) {
 				"modified_during_iteration": st.modDuringIter})
 		}
 	})
+
+	c43Enter(t, rec)
 }
